@@ -29,7 +29,8 @@ REQUIRE = {'sets_whose_first_language_is_empty': 30, 'dfxp_documents_round_tripp
            'dfxp_writes_SinglePositioningDFXPWriter': 20, 'child_batches': 3, 'dfxp_docs_read': 30, 'sami_docs_read': 30, 'div_without_lang': 5,
            'default_lang_env_used': 2, 'sets_written_dfxp': 50, 'sets_written_sami': 50, 'webvtt_lang_option': 30,
            'force_option': 20, 'sami_secondary_language_syncs_inserted': 30, 'reader_lang_option': 20,
-           'languages_compared': 300, 'hash_seeds_used': 2, 'webvtt_lang_absent': 10}
+           'languages_compared': 300, 'hash_seeds_used': 2, 'webvtt_lang_absent': 10,
+           'multi_language_sets_whose_cues_share_style_classes': 100}
 SHARDS = {'quick': 8, 'thorough': 16}
 
 
@@ -123,6 +124,14 @@ def gen_multi_set(rng, tag):
         # a language without captions in front of the others (e.g. a SAMI class whose paragraphs are all blank)
         spec['langs'][0]['captions'] = []
         spec['empty_first'] = True
+    if rng.random() < 0.3:
+        # cues of every language share style classes of the set (classes that say nothing about a language)
+        spec['styles'] = {'dialogue': {'color': 'white', 'font-family': 'Arial'}, 'song': {'italics': True}}
+        for l in spec['langs']:
+            for c in l['captions']:
+                if rng.random() < 0.8:
+                    c['style'] = {'class': rng.choice(['dialogue', 'dialogue', 'song'])}
+        spec['shared_classes'] = True
     return spec
 
 
@@ -184,6 +193,8 @@ def check(case, ctx):
     import pycaption
     kind = case['kind']
     fails = []
+    if case.get('set', {}).get('shared_classes') and len(case['set']['langs']) > 1:
+        ctx.count('multi_language_sets_whose_cues_share_style_classes')
     if kind == 'child':
         jobs = [{'op': 'default_lang'}]
         for d in case['docs']:
